@@ -28,8 +28,7 @@ RULE = (
     "{explicit, object} through uselinopparams: products inside the block == Jacobian at the NEW parameters, "
     "gradient w.r.t. a scale of the new parameters, products after the block == Jacobian at the original ones.  "
     "distinct = distinct observation tables; a case is trivial when no operator was produced")
-RULE_ADDED = ('Added later: operator constructed under torch.no_grad(), call-order plane in fresh interpreters. Rou'
-              'nd 4: kind nn_tied (one Parameter registered in two sub-modules).')
+RULE_ADDED = 'Added later: operator constructed under torch.no_grad(), call-order plane in fresh interpreters. Round 4: kind nn_tied (one Parameter registered in two sub-modules). Round 6: expanded (zero-stride) operand batches; operators of one jac / hess call stay independent while one of them is substituted.'
 ASSUMPTIONS = [
     "function bodies are smooth (tanh, sin, sqrt(1+|a|^2), bilinear coupling) with N(0,1)-scaled fixed weights; values "
     "from a fixed generator stream (plane 0), thorough adds one plane derived from VERIF_SEED",
